@@ -549,6 +549,57 @@ Proof.
   rewrite get_with_inprog, get_set_same. simpl. rewrite Ex, En. auto.
 Qed.
 
+(* ---- a rejected Start has no side effects ---- *)
+(* whatever the reason of the rejection (already running, finished, stale, invalid, unknown id): the state
+   after the call IS the state before it *)
+Theorem start_call_error_unchanged ms s id s' r :
+  inprog s = [] -> start_call (fixed ms) s id = Some (s', r) -> r <> ROk -> s' = s /\ (r = RRejected \/ r = RNotFound).
+Proof.
+  intros HI H Hr. rewrite start_call_seq in H by assumption. simpl in H.
+  destruct (negb (is_wnone (waiter (get s id)))); [inversion H; subst; auto |].
+  destruct (stored (get s id)) as [p|]; [| inversion H; subst; auto].
+  destruct (validate (fixed ms) (now s) p); inversion H; subst; auto. contradiction.
+Qed.
+
+(* the steps of a Start before the launch touch no plan, in any interleaving *)
+Theorem start_steps_keep_plans ms s l s' r :
+  (exists id, l = LStartEnter id) \/ (exists k, l = LStartCheck k) \/ (exists k, l = LStartRead k) ->
+  step (fixed ms) s l = Some (s', r) -> plans s' = plans s /\ next s' = next s /\ now s' = now s.
+Proof.
+  intros [[id Hl] | [[k Hl] | [k Hl]]] H; subst l; simpl in H.
+  - destruct (negb (is_nil (inprog s))); inversion H; subst; auto.
+  - destruct (nth_error (inprog s) k) as [[id stg]|]; [| discriminate]. destruct stg; try discriminate.
+    destruct (negb (is_wnone (waiter (get s id)))); inversion H; subst; auto.
+  - destruct (nth_error (inprog s) k) as [[id stg]|]; [| discriminate]. destruct stg; try discriminate.
+    destruct (stored (get s id)) as [p|]; [destruct (validate (fixed ms) (now s) p) |]; inversion H; subst; auto.
+Qed.
+
+(* Wait on a plan that is not executing never blocks: it answers with what the store has *)
+Theorem wait_idle_not_blocked ms s id c :
+  reach (fixed ms) s -> engines (get s id) = [] ->
+  step (fixed ms) s (LWait id c) = Some (s, read_res (fixed ms) s id) /\ read_res (fixed ms) s id <> RCanceled.
+Proof.
+  intros R En. pose proof (inv_good _ _ (inv_reach _ _ R) id) as G. unfold good in G. rewrite En in G.
+  destruct G as (W & _). simpl. rewrite W. split; auto.
+  unfold read_res; simpl. destruct (stored (get s id)); discriminate.
+Qed.
+
+(* together: after a Start that returned an error on a plan that is not executing, Wait answers at once with
+   the same result as before that Start, and a second Start is rejected with the same class *)
+Theorem rejected_start_no_side_effect ms s id s' r :
+  reach (fixed ms) s -> inprog s = [] -> engines (get s id) = [] ->
+  start_call (fixed ms) s id = Some (s', r) -> r <> ROk ->
+  s' = s
+  /\ (forall c, step (fixed ms) s' (LWait id c) = Some (s', read_res (fixed ms) s id))
+  /\ read_res (fixed ms) s id <> RCanceled
+  /\ start_call (fixed ms) s' id = Some (s', r).
+Proof.
+  intros R HI En H Hr. destruct (start_call_error_unchanged _ _ _ _ _ HI H Hr) as (Hs & _). subst s'.
+  split; auto. split; [| split; auto].
+  - intro c. apply (wait_idle_not_blocked _ _ _ c R En).
+  - apply (wait_idle_not_blocked _ _ _ false R En).
+Qed.
+
 (* ---- traces ---- *)
 Lemma run_reach c s tr s' rs : reach c s -> run c s tr = Some (s', rs) -> reach c s'.
 Proof.
